@@ -126,7 +126,22 @@ impl Prop for C15 {
             return out;
         }
         for k in 0..16 {
-            let (input, kind) = if rng.chance(3, 5) {
+            let (input, kind) = if rng.chance(1, 8) {
+                // verbatim material (asm bodies, off regions) with trailing blanks, comments and all three
+                // line-end styles: cursor arithmetic over whitespace that is copied, not generated
+                let body = *rng.pick(super::c07::ASM_BODIES);
+                let text = match rng.below(3) {
+                    0 => format!("procedure P;\nbegin\n  X:=1;\n  asm\n    {body}  \n  end;\n  Y   :=  2;\nend;\n"),
+                    1 => "begin\n  A := 1; // pasfmt off\n  B   :=   2; // x \n  // y\n\n  C := 3; { pasfmt on }\n  D:=4;\nend.\n".to_string(),
+                    _ => format!("begin\n  {{pasfmt off}}\n  asm\n  {body}\n  end; // c\n  {{pasfmt on}} Z:=1;\nend.\n"),
+                };
+                let text = match rng.below(3) {
+                    0 => text,
+                    1 => text.replace("\r\n", "\n").replace('\n', "\r\n"),
+                    _ => text.replace("\r\n", "\n").replace('\n', "\r"),
+                };
+                (text, "verbatim-material")
+            } else if rng.chance(3, 5) {
                 let w = common::well_formed(ctx, &mut rng, 20);
                 (w.text, if w.prog.is_some() { "gram" } else { "seed" })
             } else {
